@@ -58,7 +58,7 @@ def selftest(chk, behs, prelude):
     if blk:
         blk[-1]["st"]["dposStart"] += 1
         recs = dc.replay(chk, [bad2], prelude, "selftest2")
-        chk.selftest("replay: expected state after a block corrupted", any(x.get("kind") == "mismatch" for x in recs))
+        chk.selftest("replay: expected state after a block corrupted", any(x.get("kind") in ("mismatch", "violation") for x in recs))
 
 
 def run(chk):
@@ -76,7 +76,7 @@ def run(chk):
                 ("votes-pairs", "votes", K, 9, 2, 1, 1500, 6, 1), ("penalty", "penalty", K, 11, 1, 1, 2000, 6, 1),
                 ("penalty-pairs", "penalty", K, 10, 2, 1, 700, 6, 1), ("cancel-pairs", "cancel", K, 12, 2, 1, 2500, 6, 4)]
     else:
-        jobs = [("basic", "basic", K, 8, 1, 1, 240, 4, 1), ("votes", "votes", K, 9, 2, 1, 200, 4, 1),
+        jobs = [("basic", "basic", K, 8, 1, 1, 240, 4, 1), ("votes", "votes", K, 10, 1, 1, 220, 4, 4),
                 ("cancel", "cancel", K, 11, 2, 1, 200, 4, 1)]
     # simulation (long sequences) runs beside the exhaustive jobs
     import concurrent.futures
